@@ -48,10 +48,10 @@ TotalClause(name) ==
       [] name = "ev" -> "C12.EVTotal"
       [] name = "chp" -> "C12.CHPTotal"
 
-\* the known deviation is reported for a record only when its cause predicate holds on this very
-\* graph AND the real consumer formula is exactly the one the transcription predicts
-KnownDev(Fcons, Scons) ==
-    IF Dev_MixedMeterAsConsumerWithoutGridMeter /\ Fcons = Scons
+\* the named deviation (the defect repaired by 47787ae) is attached to a failing record only when
+\* its cause holds on this very graph AND the real consumer formula is exactly the legacy one
+KnownDev(Fcons) ==
+    IF Dev_MixedMeterAsConsumerWithoutGridMeter(Fcons)
     THEN <<"Dev_MixedMeterAsConsumerWithoutGridMeter">> ELSE NoDev
 
 \* clauses on one real call c, S = what the transcription generated for the same formula
@@ -64,7 +64,7 @@ CallChecks(c, S) ==
              "C12.Generated", <<c.err, shown>>, NoDev)
     /\ Check(TotalOK(c.name, F), TotalClause(c.name),
              <<"form", Form(F.coef), "true total", TrueTotal(c.name), shown>>,
-             IF c.name = "cons" THEN KnownDev(F, S) ELSE NoDev)
+             IF c.name = "cons" THEN KnownDev(F) ELSE NoDev)
     /\ Check(FallbackOK(F), "C12.FallbackEqualsPrimary", <<"fallbacks", c.fb, shown>>, NoDev)
     /\ Check(F = S, "drift.Transcription", <<"transcription", S.ok, S.coef, S.fb, "real", c.ok, c.fb, shown>>, NoDev)
 
@@ -74,7 +74,7 @@ FinalChecks ==
           <<"grid", Form(Real("grid").coef), "consumer", Form(Fc.coef), "producer", Form(Real("prod").coef),
             "battery", Form(Real("bat").coef), "ev", Form(Real("ev").coef),
             [cat |-> cat, parent |-> parent]>>,
-          KnownDev(Fc, gen'["cons"]))
+          KnownDev(Fc))
 
 \* which clause antecedents this record exercised (counted by the harness: vacuity guards).
 \* The first group is determined by the graph alone, the second by what the real code returned.
@@ -82,7 +82,8 @@ Exercised ==
     IF Tr.kind = "graph" /\ Len(Tr.calls) = Len(NamesSeq)
     THEN [graph |-> TRUE,
           with_grid_meter |-> AreGridMeters,
-          dev |-> Dev_MixedMeterAsConsumerWithoutGridMeter,
+          dev |-> CauseMixedMeter,
+          real_legacy_consumer |-> CauseMixedMeter /\ Real("cons") = LegacyConsumer,
           chp_without_dedicated_meter |-> ChpRefusal,
           chp_with_dedicated_meter |-> ~ChpRefusal /\ ChpSet # {},
           load |-> \E m \in Nodes : HasLoad(m),
